@@ -11,7 +11,7 @@ RULE = (
     "seeded random cases: grid dataset of 1-2 axes (a quarter of them two faces joined by same-axis or axis-swapping links, the input there a scalar or a vector component {axis: component} with its partner) with dimension coordinates on all, none or a random subset of the dimensions (with attributes), 0-5 random "
     "non-dimension coordinates (0-D/1-D/N-D on any mix of positions and an extra dim, with attributes), in 30% of the cases metrics registered from data variables (constructor or set_metrics), an input at a "
     "random position carrying the dataset's coordinates or none, one of diff/interp/min/max/cumsum over one or two axes "
-    "with any of the 8 shifts (padded and unpadded paths), keep_coords true/false/default. Verdicts: coordinate set of "
+    "with any of the 8 shifts (padded and unpadded paths), in-memory or (a quarter) dask-backed, keep_coords true/false/default. Verdicts: coordinate set of "
     "the result == {dataset coordinates fitting the result dims} (keep_coords) / {dimension coordinates} (otherwise); "
     "each attached coordinate equals the dataset's in values and attrs (compared by dimension name); no coordinate on "
     "the abandoned dimension; name kept; values identical when the input's labels are removed or scrambled. Class = "
@@ -84,6 +84,8 @@ def gen_case(rng, i, tier):
         # the grid may carry metrics registered from *data variables* of the dataset: they are not coordinates of the
         # dataset and never become labels of a result
         "metrics": rng.random() < 0.3,
+        # the input may be dask-backed (chunked along the dimensions that are not operated on): same labels, same name
+        "lazy": rng.random() < 0.25,
     }
 
 
@@ -138,6 +140,9 @@ def run_case(ctx, desc):
     dims = desc["dims"]
     shape = [ds.sizes[d] for d in dims]
     da = xr.DataArray(gen.quarter_data(desc["dseed"], shape), dims=dims, name=desc["name"])
+    if desc.get("lazy"):
+        opd = {cm[a][desc["pos"][a]] for a in desc["opax"]}
+        da = da.chunk({d: (-1 if d in opd else 1) for d in da.dims})
     bare = da
     if desc["carry"]:
         da = da.assign_coords({c: v for c, v in ds.coords.items() if set(v.dims) <= set(dims)})
@@ -160,7 +165,7 @@ def run_case(ctx, desc):
             return getattr(g, op)(x, axarg, **kw)
     rdims = [{cm[a][desc["pos"][a]]: cm[a][to[a]] for a in opax}.get(d, d) for d in dims]
     expc = {c for c, v in ds.coords.items() if set(v.dims) <= set(rdims) and (kc or c in rdims)}
-    ckey = (op, (("faces-vector" if desc.get("vector") else "faces") if desc.get("fc") else "simple") + ("+metrics" if desc.get("metrics") else ""), [(desc["pos"][a], to[a]) for a in opax], desc["keep_coords"], desc["carry"], desc["withdim"] if isinstance(desc["withdim"], bool) else "mixed",
+    ckey = (op, (("faces-vector" if desc.get("vector") else "faces") if desc.get("fc") else "simple") + ("+metrics" if desc.get("metrics") else "") + ("+lazy" if desc.get("lazy") else ""), [(desc["pos"][a], to[a]) for a in opax], desc["keep_coords"], desc["carry"], desc["withdim"] if isinstance(desc["withdim"], bool) else "mixed",
             min(3, len(expc)))
     ctx.judged(ckey, len(expc) > 0)
     try:
